@@ -13,6 +13,7 @@ import (
 	"github.com/NethermindEth/juno/core/felt"
 	"github.com/NethermindEth/juno/l1/eth"
 
+	"jsim/refmpt"
 	"jsim/refstate"
 	"jsim/tape"
 )
@@ -379,7 +380,10 @@ func (g *Gen) slotWrite(t *tape.Tape, pre *refstate.State, d *core.StateDiff, a 
 		cur = c.Storage[k]
 	}
 	var v felt.Felt
-	switch t.Draw("slot.val", 6) {
+	switch t.Draw("slot.val", 7) {
+	case 6: // a value at the edge of the field / of the hash operand decomposition
+		bv := refmpt.BoundaryValues()
+		v = bv[t.Draw("slot.boundary", len(bv))]
 	case 0: // zero: write-back-to-zero, or zero write to a never-written slot
 		if system {
 			v = f(uint64(1 + t.Draw("slot.v", 9)))
